@@ -30,6 +30,7 @@ def run(ctx) -> None:
     from . import c05
     c05.r5_reparse_sites(ctx, "C17.R6", placeholders=True)
     r7_consuming_modifiers(ctx)
+    r8_filters_honoured(ctx)
 
 
 def r1_renderers_refuse(ctx) -> None:
@@ -314,3 +315,24 @@ def r7_consuming_modifiers(ctx) -> None:
         else:
             r.violation("C17.R7", f.qual, "else: r.append(item)  # placeholders pass through", "f|expand|wide: 'user=%user%' yields UTF-16 text around a placeholder that is later replaced by single-byte text: a mixture that matches nothing, without any error", f.loc)
     r.floor("C17.R7", 5)
+
+
+def r8_filters_honoured(ctx) -> None:
+    r, prog = ctx.r, ctx.prog
+    r.rule("C17.R8", "a placeholder transformation only looks at the placeholders it is responsible for: every contains_placeholder() test inside a transformation with include/exclude lists passes them on (another item's placeholder in the same value is neither replaced nor a reason to fail)")
+    n = 0
+    holders = [cq for cq, ci in prog.classes.items() if ci.module.name.startswith("sigma.processing.transformations") and {"include", "exclude"} <= set(prog.dataclass_fields(cq))]
+    if len(holders) < 4:
+        raise AnalysisError(f"only {len(holders)} transformation classes with include/exclude lists found")
+    for cq in sorted(holders):
+        for name, f in sorted(prog.cls(cq).methods.items()):
+            for c in walk_no_nested(f.node):
+                if isinstance(c, ast.Call) and isinstance(c.func, ast.Attribute) and c.func.attr == "contains_placeholder":
+                    n += 1
+                    args = [unparse(a) for a in c.args] + [f"{k.arg}={unparse(k.value)}" for k in c.keywords]
+                    loc = f"{f.module.relpath}:{c.lineno}"
+                    if args in (["self.include", "self.exclude"], ["include=self.include", "exclude=self.exclude"]):
+                        r.ok("C17.R8", f.qual, f"{short(c, 70)}", loc)
+                    else:
+                        r.violation("C17.R8", f.qual, short(c, 80), "the test considers every placeholder of the value, also those excluded from this item: with include: [a] a value 'foo%b%' makes query_expression_placeholders abort the conversion although %b% is resolved by a later item", loc)
+    r.floor("C17.R8", 2)
